@@ -38,6 +38,12 @@ fn offcurve_points() -> Vec<(String, Pt)> {
         ("(Gx+1,Gy)".to_string(), Pt { x: g.x + one(), y: g.y }),
         ("(0,-1)x2".to_string(), Pt { x: zero(), y: fe(2) }),
         ("(2,3)".to_string(), Pt { x: fe(2), y: fe(3) }),
+        // neighbours of a member that share one coordinate (or its parity) with it
+        ("(Gx+2,Gy)".to_string(), Pt { x: g.x + fe(2), y: g.y }),
+        ("(Gx,Gy+2)".to_string(), Pt { x: g.x, y: g.y + fe(2) }),
+        ("(Gx+2,Gy+2)".to_string(), Pt { x: g.x + fe(2), y: g.y + fe(2) }),
+        ("(2,1)".to_string(), Pt { x: fe(2), y: one() }),
+        ("(0,3)".to_string(), Pt { x: zero(), y: fe(3) }),
     ];
     v.into_iter().filter(|(_, p)| !p.on_curve()).collect()
 }
@@ -153,12 +159,30 @@ fn representations(pn: &str, p: &Pt) -> Vec<Rep> {
     out
 }
 
-fn direct_entry_points(run: &mut Run, tier: Tier) {
+fn direct_entry_points(run: &mut Run, tier: Tier, only: Option<(&str, &str, &str)>) {
     let mut reps = vec![];
     for (pn, p) in candidates(tier) {
         reps.extend(representations(&pn, &p));
     }
     let mut n_z0 = 0;
+    // histories: sequences of VALID earlier calls on the same composer; the verdict on
+    // the next point must not depend on them
+    let gen = GENERATOR_EXTENDED;
+    let idn = JubJubExtended::from_raw_unchecked(zero(), one(), one(), zero(), one());
+    let two_g = gen + gen;
+    let mut histories: Vec<(String, Vec<(bool, JubJubExtended)>)> = vec![
+        ("".into(), vec![]),
+        ("constant(identity)".into(), vec![(true, idn)]),
+        ("constant(G)".into(), vec![(true, gen)]),
+        ("generator(G)".into(), vec![(false, gen)]),
+        ("constant(identity),generator(G)".into(), vec![(true, idn), (false, gen)]),
+    ];
+    if tier == Tier::Thorough {
+        histories.push(("constant(2G)".into(), vec![(true, two_g)]));
+        histories.push(("generator(2G),constant(G)".into(), vec![(false, two_g), (true, gen)]));
+        histories.push(("constant(-G)".into(), vec![(true, -gen)]));
+    }
+    let hsuffix = |h: &str| if h.is_empty() { String::new() } else { "/after-history".to_string() };
     for r in &reps {
         let member = r.affine.map(|a| a.in_subgroup()).unwrap_or(false);
         let prime_order = member && r.affine != Some(Pt::identity());
@@ -185,22 +209,39 @@ fn direct_entry_points(run: &mut Run, tier: Tier) {
                 }),
             ),
         ];
-        for (name, call) in calls {
+        for (name, call) in &calls {
+          let name = *name;
+          for (hname, hist) in &histories {
+            if let Some((e, rp, h)) = only {
+                if e != name || rp != r.name || h != hname {
+                    continue;
+                }
+            }
             run.transitions += 1;
             run.evaluations += 1;
             run.traces_validated += 1;
             let ext = r.ext;
             let res = std::panic::catch_unwind(std::panic::AssertUnwindSafe(|| {
                 let mut c = Composer::initialized();
+                // a non-initial composer: valid points went through the entry points before
+                for (constant, hp) in hist {
+                    if *constant {
+                        c.append_constant_point(*hp).expect("history: valid constant point");
+                    } else {
+                        let s = c.append_witness(fe(3));
+                        c.component_mul_generator(s, *hp).expect("history: valid generator");
+                    }
+                }
                 call(&mut c, ext)
             }));
-            let case = json!({"entry": name, "representation": r.name});
-            run.nontrivial(fnv(format!("{}{}", name, r.name).as_bytes()));
+            let case = json!({"entry": name, "representation": r.name, "history": hname});
+            run.nontrivial(fnv(format!("{}{}{}", name, r.name, hname).as_bytes()));
+            run.outcome(if hist.is_empty() { "entry:fresh-composer" } else { "entry:after-history" });
             let rep_class = r.name.rsplit('/').next().unwrap_or("").to_string();
             match res {
                 Err(p) => {
                     run.outcome(&format!("{}:panic", name));
-                    run.violation(&format!("entry/{}/panic/{}", name, rep_class), &format!("{} panicked on {}: {}", name, r.name, crate::par::panic_msg(p)), case);
+                    run.violation(&format!("entry/{}/panic/{}{}", name, rep_class, hsuffix(hname)), &format!("{} panicked on {}: {}", name, r.name, crate::par::panic_msg(p)), case);
                 }
                 Ok(res) => {
                     let ok = res.is_ok();
@@ -233,8 +274,8 @@ fn direct_entry_points(run: &mut Run, tier: Tier) {
                     if let Some(m) = must {
                         if m != ok {
                             run.violation(
-                                &format!("entry/{}/{}/{}", name, if ok { "accepted" } else { "rejected" }, rep_class),
-                                &format!("{} {} {} (member={}, representable={}, consistent={}): {:?}", name, if ok { "accepted" } else { "rejected" }, r.name, member, r.representable, r.consistent, res.as_ref().err()),
+                                &format!("entry/{}/{}/{}{}", name, if ok { "accepted" } else { "rejected" }, rep_class, hsuffix(hname)),
+                                &format!("{} {} {} (member={}, representable={}, consistent={}) after history [{}]: {:?}", name, if ok { "accepted" } else { "rejected" }, r.name, member, r.representable, r.consistent, hname, res.as_ref().err()),
                                 case.clone(),
                             );
                         }
@@ -247,9 +288,10 @@ fn direct_entry_points(run: &mut Run, tier: Tier) {
                     }
                 }
             }
+          }
         }
     }
-    run.gate("zero-Z representations exercised", n_z0 > 0);
+    run.gate("zero-Z representations exercised", n_z0 > 0 || only.is_some());
     let _ = Prog::new(|_| Ok(()));
 }
 
@@ -259,6 +301,16 @@ pub fn main(tier: Tier, replay: Option<serde_json::Value>) -> i32 {
     let cs = cases(tier);
     let cache = ConfirmCache::new(crate::setup::pp(64));
     if let Some(r) = replay {
+        if let Some(e) = r["case"]["entry"].as_str() {
+            run.set_replay_mode();
+            let before = run.transitions;
+            direct_entry_points(&mut run, Tier::Thorough, Some((e, r["case"]["representation"].as_str().unwrap_or(""), r["case"]["history"].as_str().unwrap_or(""))));
+            if run.transitions == before {
+                run.machinery("replay: entry-point case not in the enumeration".into());
+            }
+            println!("replay: {} entry-point case(s) re-run, {} violations", run.transitions - before, run.violations);
+            return run.finish();
+        }
         return crate::gadget::replay(run, &cs, &cache, &r);
     }
     let tors = m5::torsion_points();
@@ -266,7 +318,7 @@ pub fn main(tier: Tier, replay: Option<serde_json::Value>) -> i32 {
     let names: Vec<String> = cs.iter().map(|c| c.g.name.clone()).collect();
     let reps = crate::par::par_map(&cs, |c| run_case(c, &cache));
     absorb(&mut run, reps, &names);
-    direct_entry_points(&mut run, tier);
+    direct_entry_points(&mut run, tier, None);
     run.gate("members and non-members explored", run.count("honest:sat") > 0 && run.count("honest:unsat") > 0);
     run.assumptions = vec![
         "M1 row model (bound to the prover by C05) decides satisfiability".into(),
